@@ -268,10 +268,10 @@ def _earlier_call(c, sizer, lid, dt, nonneg):
 class _QuietLoop(heap.MapLoop):
     """the cut loop of the earlier call: its invariant is assumed, none of its obligations is recorded"""
 
-    def havoc(self, env, names):
+    def havoc(self, env, names, state=()):
         c = ctx()
         n = len(c.obs)
-        out = super().havoc(env, names)
+        out = super().havoc(env, names, state)
         del c.obs[n:]
         return out
 
